@@ -111,6 +111,13 @@ CHECKS['C18'] = dict(
     design_ref='DESIGN.md section 3 C18',
     note='dict backend with demo data; fetch attributes re-serialise to their response form by design (.PEEK and partial length dropped), so they are only checked for exact consumption',
     technique='bounded-exhaustive enumeration of wire spellings, sibling-differential oracle on identical worlds, independent modified-UTF-7 codec')
+CHECKS['C16'] = dict(
+    engine='E5 deviation-bounded stateless exploration (vf/checks/c16.py) on E1/E2',
+    category='model_checking',
+    text='For 36 scenarios quick / ~110 thorough (1-2 idling sessions; 1-2 writers with bursts of 1-2, thorough 3, commands from APPEND, STORE +\\Flagged, STORE +\\Deleted;EXPUNGE, silent STORE, MOVE; variants with a change made just before IDLE is entered and with a non-DONE line) every execution with at most 2 (thorough: 3 for short bursts) deviations from the default environment is enumerated on the real server over the virtual loop by recursive re-execution: at every loop-iteration boundary the environment may deliver the next client chunk although handles are still ready, deliver an idler\'s DONE early, gate an idler\'s drain (TCP back-pressure) and release it later, or choose another quiescent-time delivery order; every execution runs until nothing is runnable. Oracle at that horizon, with no further stimulus: each idler\'s shadow client (count, UID per position, flags) equals the stored mailbox; all sequence-number rules hold for the pushed data; every writer command completed; then DONE yields the tagged OK (any other line BAD); sessions that left IDLE early converge with one NOOP.',
+    design_ref='DESIGN.md section 3 C16',
+    note='dict backend / asyncio subsystem; deviation bound 2 (3 for short single-writer bursts in thorough); the maildir 1 s poll loop is not explored by this check',
+    technique='stateless deviation-bounded model checking of the implementation under a controlled event loop (iterative context bounding over environment answers)')
 NA = {}
 
 def main():
